@@ -206,6 +206,63 @@ fn strip(norm: &Value, allowed: &[String]) -> Value {
     Value::Object(o)
 }
 
+/// Every optional stream the writer always attempts: when it is absent from the directory its step
+/// failed, and the soft errors must say so.
+pub fn absent_streams_unreported(d: &Dump, soft_text: &str) -> Vec<(String, String)> {
+    use mdv_core::mdparse as m;
+    let table: [(u32, &str, &str); 10] = [
+        (m::ST_LINUX_CPU_INFO, "LinuxCpuInfo", "WriteCpuInfoFailed"),
+        (m::ST_LINUX_PROC_STATUS, "LinuxProcStatus", "WriteThreadProcStatusFailed"),
+        (m::ST_LINUX_LSB_RELEASE, "LinuxLsbRelease", "WriteOsReleaseInfoFailed"),
+        (m::ST_LINUX_CMD_LINE, "LinuxCmdLine", "WriteCommandLineFailed"),
+        (m::ST_LINUX_ENVIRON, "LinuxEnviron", "WriteEnvironmentFailed"),
+        (m::ST_LINUX_AUXV, "LinuxAuxv", "WriteAuxvFailed"),
+        (m::ST_LINUX_MAPS, "LinuxMaps", "WriteMapsFailed"),
+        (m::ST_LINUX_DSO_DEBUG, "LinuxDsoDebug", "WriteDSODebugStreamFailed"),
+        (m::ST_MOZ_LINUX_LIMITS, "MozLinuxLimits", "WriteLimitsFailed"),
+        (m::ST_HANDLE_DATA, "HandleData", "WriteHandleDataStream"),
+    ];
+    let mut v = Vec::new();
+    for (ty, name, needle) in table {
+        if !d.has_stream(ty) && !soft_text.contains(needle) {
+            v.push((format!("absent-stream-not-reported/{name}"), format!("stream {name} is absent from the dump but no {needle} soft error was reported: {}", &soft_text[..soft_text.len().min(300)])));
+        }
+    }
+    v
+}
+
+/// Natural failures of the 'read linker debug data' step: the 12 chain shapes of the synthetic linker
+/// window (C02 family D) — whatever the shape, the dump succeeds, the soft-error stream is a JSON list,
+/// a missing linker stream is reported, and all other streams equal the baseline over the intact window.
+fn run_linker_shape(shape: usize) -> Res {
+    use crate::checks::c02::{linker_shape_image, make_host, window_opts};
+    use crate::dump::dump_mem;
+    let mut h = make_host();
+    let o = window_opts(&h);
+    let name = format!("linker data shape {shape}");
+    let base = match dump_mem(h.b.p.pid, &o) {
+        DumpResult::Ok(b) => b,
+        other => return Res { name, fails: vec![("baseline-failed".into(), format!("{other:?}"))], soft_len: 0 },
+    };
+    let bd = Dump::parse(&base);
+    let baseline = bd.normalized(&base, &NormOpts { mask_volatile: true });
+    let mut fails = Vec::new();
+    if !bd.has_stream(mdv_core::mdparse::ST_LINUX_DSO_DEBUG) {
+        fails.push(("MACHINERY".into(), "the intact synthetic linker window does not yield a linker stream".into()));
+    }
+    let (img, what) = linker_shape_image(&h, shape);
+    h.b.p.write(h.win.base, &img);
+    h.b.p.quiesce();
+    let result = dump_mem(h.b.p.pid, &o);
+    let inj = Inj { name: format!("linker data: {what}"), opt: 9, allowed: vec!["dso".into(), "raw.LinuxDsoDebug".into(), "streams".into()], ..Default::default() };
+    fails.extend(judge(&inj, &result, &baseline, true));
+    let soft_len = match &result {
+        DumpResult::Ok(bytes) => Dump::parse(bytes).raw_bytes(bytes, ST_MOZ_SOFT_ERRORS).map(|s| s.len()).unwrap_or(0),
+        _ => 0,
+    };
+    Res { name: inj.name, fails, soft_len }
+}
+
 pub struct Res {
     name: String,
     fails: Vec<(String, String)>,
@@ -229,10 +286,10 @@ fn opts_for(inj: &Inj, ctx_on: bool, env: &crate::checks::c01::Env, pid: i32) ->
     o
 }
 
-fn judge(inj: &Inj, out: &crate::envrun::EnvOut, baseline: &Value, injected_keys_hit: bool) -> Vec<(String, String)> {
+fn judge(inj: &Inj, result: &DumpResult, baseline: &Value, injected_keys_hit: bool) -> Vec<(String, String)> {
     let mut fails = Vec::new();
     let key = |s: &str| format!("{s}/{}", inj.name.split(" + ").next().unwrap_or(&inj.name).replace(|c: char| c.is_ascii_digit(), "#"));
-    let bytes = match &out.result {
+    let bytes = match result {
         DumpResult::Ok(b) => b,
         DumpResult::Err(e) => {
             fails.push((key("dump-failed"), format!("[{}] the dump failed instead of reporting a soft error: {e}", inj.name)));
@@ -273,6 +330,9 @@ fn judge(inj: &Inj, out: &crate::envrun::EnvOut, baseline: &Value, injected_keys
                 fails.push((key(&format!("failure-not-reported/{needle}")), format!("[{}] expected {count}x {needle:?} in the soft errors, found {got}: {}", inj.name, &text[..text.len().min(400)])));
             }
         }
+    }
+    for (k, m) in absent_streams_unreported(&d, &text) {
+        fails.push((key(&k), format!("[{}] {m}", inj.name)));
     }
     for err in d.structural_errors() {
         fails.push((key("structure"), format!("[{}] {err}", inj.name)));
@@ -317,7 +377,7 @@ fn run_inj(inj: &Inj, n: usize, ctx_on: bool) -> Res {
     let out = env_dump(&b.p, &EnvSpec { plan: inj.plan.clone(), failpoints: inj.failpoints, dest_fault: None, opts: o }, HashMap::new(), None);
     // were all planned keys actually reached? (otherwise the injection did not happen: machinery)
     let hit = inj.plan.iter().filter(|(k, _)| !k.starts_with("open:/proc/P/stat#")).all(|(k, _)| out.trace.iter().any(|c| &c.key == k && c.deviated));
-    let mut fails = judge(inj, &out, &baseline, hit);
+    let mut fails = judge(inj, &out.result, &baseline, hit);
     if !hit {
         fails.push(("MACHINERY".into(), format!("[{}] a planned key was never reached", inj.name)));
     }
@@ -356,6 +416,18 @@ pub fn run(ctx: &Ctx, rep: &mut Report) {
         let n = case["n"].as_u64().unwrap_or(3) as usize;
         let ctx_on = case["ctx"].as_bool().unwrap_or(false);
         let name = case["name"].as_str().unwrap_or("");
+        if let Some(shape) = case.get("linker_shape").and_then(|v| v.as_u64()) {
+            let r = run_linker_shape(shape as usize);
+            rep.evaluations += 1;
+            for (k, m) in r.fails {
+                if k == "MACHINERY" {
+                    rep.machinery(m);
+                } else {
+                    rep.violation(&k, &m, case.clone());
+                }
+            }
+            return;
+        }
         let all = injectables(n, &stat_fix, &auxv_fix);
         let mut target: Option<Inj> = None;
         if let Some(bits) = case.get("failpoint_subset").and_then(|b| b.as_u64()) {
@@ -427,6 +499,21 @@ pub fn run(ctx: &Ctx, rep: &mut Report) {
             }
         }
     }
+    let shapes: Vec<usize> = (0..crate::checks::c02::N_LINKER_SHAPES).collect();
+    let lres = par_map(&shapes, |_, s| run_linker_shape(*s));
+    for (s, r) in shapes.iter().zip(lres) {
+        rep.evaluations += 1;
+        rep.nontrivial += 1;
+        rep.outcome(mdv_core::fnv(format!("{}{}", r.name, r.soft_len).as_bytes()));
+        for (k, m) in r.fails {
+            if k == "MACHINERY" {
+                rep.machinery(m);
+            } else {
+                rep.violation(&k, &m, json!({"linker_shape": s}));
+            }
+        }
+    }
+    rep.set("linker_data_shapes", json!(shapes.len()));
     rep.set("injectables", json!(injectables(3, &stat_fix, &auxv_fix).len()));
     rep.set("runs", json!(items.len()));
     rep.states = rep.evaluations;
